@@ -292,8 +292,13 @@ class ApiMergeStoreHandler(NbdimeHandler, APIHandler):
         # Somehow store unsolved conflicts?
         # conflicts = body['conflicts']
 
+        # Serialize before opening the file, so that a payload that
+        # cannot be written does not truncate the existing file
+        text = nbformat.writes(merged_nb)
         with io.open(path, 'w', encoding='utf8') as f:
-            nbformat.write(merged_nb, f)
+            f.write(text)
+            if not text.endswith(u'\n'):
+                f.write(u'\n')
         self.finish()
 
 
